@@ -28,7 +28,7 @@ ANCHORS = [
     "acnportal.acnsim.events.event_queue:EventQueue._from_dict",
     "acnportal.acnsim.events.event:Event.__lt__",
 ]
-REQUIRED = ["exhaustive_sequences", "random_ops", "json_round_trips", "op:get_event", "op:get_current_events",
+REQUIRED = ["returned_lists_mutated_by_the_client", "exhaustive_sequences", "random_ops", "json_round_trips", "op:get_event", "op:get_current_events",
             "op:add_events_bulk", "op:constructor_events", "ties_seen", "sim_runs_monitored", "sim_json_round_trips",
             "bulk_queues", "bulk_all_due_retrievals", "custom_precedence_round_trips", "queue_monitor:get_current_events", "queue_monitor:add", "queue_monitor:get_last_timestamp", "suite:queue_monitor:get_event"]
 BUDGET_S = {"quick": 240, "thorough": 3000}
@@ -165,6 +165,17 @@ def do_cur(q, m, t, obs, hist):
         return False
     for k in keys:
         m.remove(k)
+    # a client that treats the returned list as its own (extends it with another site's events, clears it after use): what it
+    # does to the list it was handed must not show up in any later answer of any queue
+    try:
+        if (len(keys) + t) % 3 == 0:
+            got.append(ctx().make("R", 10 ** 6 + t))
+            got.insert(0, ctx().make("U", -5, evi=t))
+        elif (len(keys) + t) % 3 == 1:
+            got.clear()
+        obs.ev("returned_lists_mutated_by_the_client")
+    except Exception:
+        pass
     return True
 
 
